@@ -489,6 +489,11 @@ func ZZ_C15_templateRestrictsTheChoice() {
 	ds.Spec.Template.Spec.NodeSelector = map[string]string{"pool": "agents"}
 	ds.Spec.Template.Spec.Affinity = &corev1.Affinity{NodeAffinity: &corev1.NodeAffinity{RequiredDuringSchedulingIgnoredDuringExecution: &corev1.NodeSelector{
 		NodeSelectorTerms: []corev1.NodeSelectorTerm{{MatchExpressions: []corev1.NodeSelectorRequirement{{Key: "zone", Operator: corev1.NodeSelectorOpIn, Values: []string{"a"}}}}}}}}
+	// the same term may also exclude a (quarantined) node by name: expressions and fields of one term are ANDed
+	if nondet.Bool("termAlsoExcludesANodeByName") {
+		ds.Spec.Template.Spec.Affinity.NodeAffinity.RequiredDuringSchedulingIgnoredDuringExecution.NodeSelectorTerms[0].MatchFields =
+			[]corev1.NodeSelectorRequirement{{Key: "metadata.name", Operator: corev1.NodeSelectorOpNotIn, Values: []string{"quarantined"}}}
+	}
 	c := fakeapi.New()
 	eligible := map[string]bool{}
 	nEligible := 0
